@@ -59,10 +59,11 @@ CLAIMED = {
     "C20": ("Coq proof: client option record -> API call mapping is well typed and value preserving, create/open agreement via the C14 decision function (Client.v); P-client correspondence",
             "client_types, client_values_* per verb, client_format_default, create-then-open both ways; calls as they reach the API (recorded by wrapping the public methods) compared with the model's mapping; effect and report compared with the API on a copy of the store.",
             "DESIGN.md section 6 C20", None),
-    "C09": ("Coq proof: integrity invariant for any pool of API calls at every prefix of every schedule (Hoare-style Safe predicate over programs with thread-private temp files, Integrity.v); P-trace + directory observer",
+    "C09": ("Coq proof: integrity invariant for any pool of API calls at every prefix of every schedule (Hoare-style Safe predicate over programs with thread-private temp files, Integrity.v), extended to executions in which operations fail (SafeF: the error continuation of every operation obeys the discipline under unchanged knowledge, IntegrityFaults.v); P-trace + directory observer",
             "integrity_invariant / integrity_every_prefix / single_step_publication / api_never_writes_permanent_in_place for any number of threads, any calls, every instant (a crash is a prefix); "
+            "integrity_under_faults / _versions / _every_prefix: the same predicate in every configuration reachable by the faulty interleaving semantics of C08 (Bracket.gstep: any faultable operation - chunk writes and list appends included - of any thread answers AErr EFault at any time, any number of times, world unchanged), as a corollary of integrity_under_failures (ANY operation may fail with ANY error code, the flock included); the roll-back paths never write a permanent address in place and publish only by renaming a complete own temp file (api_never_writes_permanent_in_place_under_faults, api_publishes_from_own_temp_under_faults); run_fault_api_integrity for every fault plan of the C13 semantics; nothing refuted in the model (props/C09faults.v); "
             "per-call operation sequences of the implementation compared op-for-op with the model; the store directory snapshotted before every operation of 19 calls (sizes 0..multi-buffer) and checked with name=digest / complete-version / whole-cid oracles.",
-            "DESIGN.md section 6 C09", "a reader racing with the bytes of a single write(2); fault executions, where shutil.move may fall back to an in-place copy"),
+            "DESIGN.md section 6 C09", "a reader racing with the bytes of a single write(2); in fault executions a failed operation is a no-op of the model: the in-place copy shutil.move falls back to when os.rename fails is not modelled, the instants inside that copy are not covered (copy_in_place_breaks_integrity)"),
     "C10": ("Coq proof: GENERAL theorem for every invariant start state, every call and every crash point (Hoare-style frame discipline + total-correctness recovery lemmas, CrashGeneral.v), plus reflective enumeration of all crash points of an 84-scenario menu by the kernel (CrashFault.v, Crash10_*.v); P-trace/P-crash correspondence",
             "C10_general_corrected: for all Inv states (no dangling binding, token-size consistency), all calls naming a pid, all n: every other pid untouched, interrupted pid served its own complete bytes or not-found/inconsistent, delete_object (Val or PidRefsDoesNotExist) then store_object succeeds and makes it retrievable; the literal statement without the two side conditions is PROVED false (witnesses in props/C10general.v); menu theorem crash_recovery for 84 scenarios x every crash point; "
             "implementation: directory state before every operation (validated against real fork+os._exit for a sample), reopened by a fresh instance, compared with run_crash and checked by the property's own oracle.",
